@@ -3,6 +3,7 @@ package main
 import (
 	"encoding/json"
 	"fmt"
+	"math"
 	"math/big"
 
 	"github.com/ohler55/slip"
@@ -10,10 +11,15 @@ import (
 	"verifharness/internal/h"
 )
 
-// C05: integer operator events. Stimulus: {"id":1,"op":"floor","a":"-9223372036854775808","b":"3"}
-// The operands are stored in variables, the operator is applied to the variables and the
-// variables are read back afterwards. Certificates (quotients, cofactors, Bezout
-// coefficients) are computed here with math/big and *checked* by the acceptor.
+// C05: operator events on exact numbers. Stimulus:
+//
+//	{"id":1,"op":"floor","a":"-9223372036854775808","b":"3"}        operands are integers or ratios "n/d"
+//	{"id":2,"op":"<","a":"9007199254740993","b":"9007199254740992.0d0","fb":true}   comparison against a float
+//	{"id":3,"op":"ash","a":"5","k":-2}
+//
+// The operands are stored in variables, the operator is applied to the variables and the variables are read
+// back afterwards. Certificates (quotients, cofactors, Bezout coefficients) are computed here with math/big
+// and *checked* by the acceptor, never trusted.
 func init() { drivers["c05"] = c05 }
 
 type c05Stim struct {
@@ -21,114 +27,179 @@ type c05Stim struct {
 	Op string `json:"op"`
 	A  string `json:"a"`
 	B  string `json:"b"`
+	K  int    `json:"k"`
+	FB bool   `json:"fb"`
 }
 
-func c05Big(o slip.Object) (*big.Int, string) {
+var (
+	c05Zero = h.V{"s": 0, "m": []int{}}
+	c05One  = h.V{"s": 1, "m": []int{1}}
+)
+
+func c05R(n, d *big.Int) h.V { return h.V{"n": h.Limbs(n), "d": h.Limbs(d)} }
+
+// exact value and representation type of a slip number; ok false for anything that is not an integer or ratio
+func c05Rat(o slip.Object) (*big.Rat, string, bool) {
 	switch t := o.(type) {
 	case slip.Fixnum:
-		return big.NewInt(int64(t)), "fixnum"
+		return new(big.Rat).SetInt64(int64(t)), "fixnum", true
 	case *slip.Bignum:
-		return new(big.Int).Set((*big.Int)(t)), "bignum"
+		return new(big.Rat).SetInt((*big.Int)(t)), "bignum", true
+	case *slip.Ratio:
+		r := (*big.Rat)(t)
+		// the raw numerator and denominator as stored (a non-canonical ratio must be seen as such)
+		return new(big.Rat).Set(r), "ratio", true
 	}
-	return nil, ""
+	return nil, "", false
 }
 
-var c05Zero = h.V{"s": 0, "m": []int{}}
+func c05RV(r *big.Rat) h.V { return c05R(r.Num(), r.Denom()) }
+
+func c05Bezout(n, d *big.Int) h.V {
+	s, t := new(big.Int), new(big.Int)
+	an := new(big.Int).Abs(n)
+	new(big.Int).GCD(s, t, an, d)
+	if n.Sign() < 0 {
+		s.Neg(s)
+	}
+	return h.V{"s": h.Limbs(s), "t": h.Limbs(t)}
+}
+
+func c05GcdCert(a, b, g *big.Int) h.V {
+	ca, cb, sa, sb := new(big.Int), new(big.Int), new(big.Int), new(big.Int)
+	if g.Sign() != 0 {
+		ca.Quo(a, g)
+		cb.Quo(b, g)
+	}
+	new(big.Int).GCD(sa, sb, new(big.Int).Abs(a), new(big.Int).Abs(b))
+	if a.Sign() < 0 {
+		sa.Neg(sa)
+	}
+	if b.Sign() < 0 {
+		sb.Neg(sb)
+	}
+	return h.V{"ca": h.Limbs(ca), "cb": h.Limbs(cb), "sa": h.Limbs(sa), "sb": h.Limbs(sb)}
+}
 
 func c05(args []string) {
 	out := h.NewOut()
 	defer out.Flush()
 	s := slip.NewScope()
+	zeroR := c05R(big.NewInt(0), big.NewInt(1))
 	h.Lines(func(line []byte) {
 		var st c05Stim
 		if err := json.Unmarshal(line, &st); err != nil {
 			panic(err)
 		}
-		a, _ := new(big.Int).SetString(st.A, 10)
-		b, _ := new(big.Int).SetString(st.B, 10)
+		a, okA := new(big.Rat).SetString(st.A)
+		b := new(big.Rat)
+		okB := true
+		if st.B == "" {
+			st.B = "0"
+		}
+		if !st.FB {
+			b, okB = new(big.Rat).SetString(st.B)
+		}
+		if !okA || !okB {
+			panic("bad operand " + st.A + " " + st.B)
+		}
 		h.Eval(s, fmt.Sprintf("(setq na %s) (setq nb %s)", st.A, st.B))
 		var src string
 		switch st.Op {
-		case "floor", "ceiling", "truncate":
+		case "floor", "ceiling", "truncate", "round":
 			src = fmt.Sprintf("(multiple-value-list (%s na nb))", st.Op)
-		case "abs":
-			src = "(abs na)"
+		case "abs", "1+", "1-", "zerop", "plusp", "minusp", "isqrt":
+			src = fmt.Sprintf("(%s na)", st.Op)
+		case "ash", "expt":
+			src = fmt.Sprintf("(%s na %d)", st.Op, st.K)
 		default:
 			src = fmt.Sprintf("(%s na nb)", st.Op)
 		}
 		o := h.Eval(s, src)
-		ev := h.V{"t": st.ID, "op": st.Op, "a": h.Limbs(a), "b": h.Limbs(b), "st": "ok", "src": src + " ; " + st.A + " " + st.B,
-			"r": c05Zero, "r2": c05Zero, "q": c05Zero, "ty": "", "bool": false,
-			"ca": c05Zero, "cb": c05Zero, "sa": c05Zero, "sb": c05Zero}
-		a2, _ := c05Big(h.Eval(s, "na").Val)
-		b2, _ := c05Big(h.Eval(s, "nb").Val)
-		if a2 == nil || b2 == nil {
-			ev["a2"], ev["b2"] = h.V{"s": 9, "m": []int{}}, h.V{"s": 9, "m": []int{}}
-		} else {
-			ev["a2"], ev["b2"] = h.Limbs(a2), h.Limbs(b2)
+		ev := h.V{"t": st.ID, "op": st.Op, "a": c05RV(a), "b": c05RV(b), "st": "ok", "src": src + " ; " + st.A + " " + st.B,
+			"r": zeroR, "r2": zeroR, "q": c05Zero, "ty": "fixnum", "bool": false, "k": st.K,
+			"low": h.V{"s": c05Zero, "t": c05One}, "fb": st.FB, "fm": c05Zero, "fe": 0,
+			"cert": h.V{"ca": c05Zero, "cb": c05Zero, "sa": c05Zero, "sb": c05Zero}}
+		if st.FB {
+			// the float operand exactly: mantissa * 2^exponent, as slip holds it after reading the literal
+			fo := h.Eval(s, "nb")
+			var f float64
+			switch tf := fo.Val.(type) {
+			case slip.DoubleFloat:
+				f = float64(tf)
+			case slip.SingleFloat:
+				f = float64(tf)
+			default:
+				panic(fmt.Sprintf("float operand %s read as %T", st.B, fo.Val))
+			}
+			mant, exp := math.Frexp(f)
+			m := new(big.Int)
+			big.NewFloat(math.Ldexp(mant, 53)).Int(m)
+			ev["fm"], ev["fe"] = h.Limbs(m), exp-53
+			ev["b"] = zeroR
+		}
+		a2, _, okA2 := c05Rat(h.Eval(s, "na").Val)
+		ev["a2"] = h.V{"n": h.V{"s": 9, "m": []int{}}, "d": c05One}
+		ev["b2"] = ev["b"]
+		if okA2 {
+			ev["a2"] = c05RV(a2)
+		}
+		if !st.FB {
+			if b2, _, okB2 := c05Rat(h.Eval(s, "nb").Val); okB2 {
+				ev["b2"] = c05RV(b2)
+			} else {
+				ev["b2"] = h.V{"n": h.V{"s": 9, "m": []int{}}, "d": c05One}
+			}
 		}
 		if !o.OK() {
 			ev["st"] = "err:" + o.Class
 			out.Emit(ev)
 			return
 		}
+		setR := func(key string, v slip.Object) (*big.Rat, bool) {
+			r, ty, ok := c05Rat(v)
+			if !ok {
+				ev["st"] = "nonrational:" + slip.ObjectString(v)
+				return nil, false
+			}
+			ev[key] = c05RV(r)
+			if key == "r" {
+				ev["ty"] = ty
+				ev["low"] = c05Bezout(r.Num(), r.Denom())
+			}
+			return r, true
+		}
 		switch st.Op {
-		case "<", "<=", ">", "=":
+		case "<", "<=", ">", ">=", "=", "/=", "zerop", "plusp", "minusp":
 			ev["bool"] = o.Val != nil
-		case "floor", "ceiling", "truncate":
+		case "floor", "ceiling", "truncate", "round":
 			l, _ := o.Val.(slip.List)
 			if len(l) != 2 {
-				ev["st"] = "nonint"
+				ev["st"] = "nonrational:" + slip.ObjectString(o.Val)
 				break
 			}
-			q, ty := c05Big(l[0])
-			r, _ := c05Big(l[1])
-			if q == nil || r == nil {
-				ev["st"] = "nonint"
-				break
+			if _, ok := setR("r", l[0]); ok {
+				setR("r2", l[1])
 			}
-			ev["r"], ev["r2"], ev["ty"] = h.Limbs(q), h.Limbs(r), ty
 		case "mod", "rem":
-			r, ty := c05Big(o.Val)
-			if r == nil {
-				ev["st"] = "nonint"
-				break
+			if r, ok := setR("r", o.Val); ok && r.IsInt() && a.IsInt() && b.IsInt() && b.Sign() != 0 {
+				// certificate: the quotient that goes with this remainder, if any
+				q := new(big.Int).Sub(a.Num(), r.Num())
+				q.Quo(q, b.Num())
+				ev["q"] = h.Limbs(q)
 			}
-			ev["r"], ev["ty"] = h.Limbs(r), ty
-			// certificate: the quotient that goes with this remainder, if any
-			q := new(big.Int)
-			if b.Sign() != 0 {
-				q.Sub(a, r)
-				q.Quo(q, b)
-			}
-			ev["q"] = h.Limbs(q)
 		case "gcd":
-			g, ty := c05Big(o.Val)
-			if g == nil {
-				ev["st"] = "nonint"
-				break
+			if g, ok := setR("r", o.Val); ok && g.IsInt() {
+				ev["cert"] = c05GcdCert(a.Num(), b.Num(), g.Num())
 			}
-			ev["r"], ev["ty"] = h.Limbs(g), ty
-			ca, cb, sa, sb := new(big.Int), new(big.Int), new(big.Int), new(big.Int)
-			if g.Sign() != 0 {
-				ca.Quo(a, g)
-				cb.Quo(b, g)
+		case "lcm":
+			if _, ok := setR("r", o.Val); ok {
+				g := new(big.Int).GCD(nil, nil, new(big.Int).Abs(a.Num()), new(big.Int).Abs(b.Num()))
+				ev["q"] = h.Limbs(g)
+				ev["cert"] = c05GcdCert(a.Num(), b.Num(), g)
 			}
-			new(big.Int).GCD(sa, sb, new(big.Int).Abs(a), new(big.Int).Abs(b))
-			if a.Sign() < 0 {
-				sa.Neg(sa)
-			}
-			if b.Sign() < 0 {
-				sb.Neg(sb)
-			}
-			ev["ca"], ev["cb"], ev["sa"], ev["sb"] = h.Limbs(ca), h.Limbs(cb), h.Limbs(sa), h.Limbs(sb)
 		default:
-			r, ty := c05Big(o.Val)
-			if r == nil {
-				ev["st"] = "nonint"
-				break
-			}
-			ev["r"], ev["ty"] = h.Limbs(r), ty
+			setR("r", o.Val)
 		}
 		out.Emit(ev)
 	})
